@@ -394,6 +394,9 @@ func (d *Driver) yield(instanceID, site string) {
 		if u := d.plan.Sched.StallUntil; u > 0 && d.now() >= u {
 			st = 0
 		}
+		if f := d.plan.Sched.StallFrom; f > 0 && d.now() < f {
+			st = 0
+		}
 	}
 	g := goid()
 	inLock := false
